@@ -158,7 +158,7 @@ func (fr *Frame) call(st *State, cc *ssa.CallCommon, pos token.Pos) (*Val, *Stat
 	// caller-side assertions attached to this callee
 	if fr.Top && fr.Con != nil && c.noObligations == 0 {
 		for i, ac := range fr.Con.AtCalls {
-			if strings.HasSuffix(name, "."+ac.Callee) || strings.HasSuffix(name, ")."+ac.Callee) || name == ac.Callee {
+			if (strings.HasSuffix(name, "."+ac.Callee) || strings.HasSuffix(name, ")."+ac.Callee) || name == ac.Callee) && (ac.Ordinal == 0 || ac.Ordinal == callOrdinal(fr.Fn, cc)) {
 				fr.midEval = true
 				aenv := map[string]*Val{}
 				for k, v := range fr.envTop {
@@ -201,7 +201,10 @@ func (fr *Frame) call(st *State, cc *ssa.CallCommon, pos token.Pos) (*Val, *Stat
 		// a contract marked `inline` describes only the recursive calls: the outermost call is executed, a call to a function
 		// already on the inlining stack is replaced by the contract
 		if con := c.contractFor(callee); con != nil && (!con.Inline || fr.onStack(callee)) {
-			return fr.applyContractAt(st, con, callee.String(), callee, sig, args, pos, cc), st
+			fr.callClosure = closure
+			r := fr.applyContractAt(st, con, callee.String(), callee, sig, args, pos, cc)
+			fr.callClosure = nil
+			return r, st
 		}
 		if fr.Depth < maxInlineDepth && c.inlinable(callee) && !fr.onStack(callee) {
 			// a callee the engine cannot model is abstracted like an unknown call (sound: havoc)
@@ -355,6 +358,16 @@ func (fr *Frame) applyContractAt(st *State, con *Contract, name string, callee *
 	bindParams(env, con, callee, sig, args)
 	if sp := c.P.SSAPkg[con.PkgPath]; sp != nil {
 		env["$pkg"] = &Val{K: KUnit, Pkg: sp.Pkg}
+	}
+	// a closure's contract may mention the variables it captures: bind them to their current values
+	if cl := fr.callClosure; cl != nil && callee != nil && len(cl.Binds) == len(callee.FreeVars) {
+		for i, fv := range callee.FreeVars {
+			if _, taken := env[fv.Name()]; !taken {
+				if pt, ok := fv.Type().(*types.Pointer); ok && cl.Binds[i] != nil {
+					env[fv.Name()] = fr.load(st, cl.Binds[i], pt.Elem())
+				}
+			}
+		}
 	}
 	pre := st.clone()
 	short := con.Key
